@@ -39,6 +39,8 @@ type Model struct {
 	ByFn  map[int]*MCtor
 	DByFn map[int]*MDec
 	Defer bool
+
+	stackMemo map[*MDec]map[int]bool
 }
 
 func NewModel(deferAcyclic bool) *Model {
@@ -55,6 +57,7 @@ func (m *Model) AddScope(parent int) int {
 	id := len(m.S)
 	m.S = append(m.S, newMScope(parent))
 	m.S[parent].Children = append(m.S[parent].Children, id)
+	m.stackMemo = nil
 	return id
 }
 
@@ -241,6 +244,7 @@ func (m *Model) AddCtor(scope, op int, f *Func) *MCtor {
 	c := &MCtor{Fn: f.ID, Op: op, Home: target, Origin: scope, LP: f.LeafParams(), LR: f.LeafResults()}
 	m.link(c)
 	m.ByFn[f.ID] = c
+	m.stackMemo = nil
 	return c
 }
 
@@ -266,6 +270,7 @@ func (m *Model) AddDec(scope, op int, f *Func) *MDec {
 	}
 	m.S[scope].Decs = append(m.S[scope].Decs, d)
 	m.DByFn[f.ID] = d
+	m.stackMemo = nil
 	return d
 }
 
@@ -364,6 +369,7 @@ func (m *Model) AnyCycle() bool {
 type Consumer struct {
 	Scope int
 	Self  *MDec
+	Fn    int // spec id of the consuming function (-1: the invoked function)
 }
 
 // Source is the expected origin of a single value.
@@ -392,6 +398,71 @@ func (m *Model) Producer(c Consumer, k Key) Source {
 	return Source{Ctor: m.NearestProv(c.Scope, k)}
 }
 
+// permClosure is the most permissive static closure of a parameter list:
+// every decorator on the path, the nearest provider and every feeder of every
+// key, ignoring what is built. It only serves to decide whether a function can
+// possibly execute while a given decorator is being built.
+func (m *Model) permClosure(c Consumer, lp []LeafParam) map[int]bool {
+	out := map[int]bool{}
+	var params func(c Consumer, lp []LeafParam)
+	params = func(c Consumer, lp []LeafParam) {
+		for _, p := range lp {
+			for _, d := range m.DecsOnPath(c.Scope, p.Key, c.Self) {
+				if !out[d.Fn] {
+					out[d.Fn] = true
+					params(Consumer{Scope: d.Scope, Self: d, Fn: d.Fn}, d.LP)
+				}
+			}
+			var ns []*MCtor
+			if p.Key.IsGroup() {
+				ns = m.Feeders(c.Scope, p.Key)
+			} else if n := m.NearestProv(c.Scope, p.Key); n != nil {
+				ns = []*MCtor{n}
+			}
+			for _, n := range ns {
+				if !out[n.Fn] {
+					out[n.Fn] = true
+					params(Consumer{Scope: n.Origin, Fn: n.Fn}, n.LP)
+				}
+			}
+		}
+	}
+	params(c, lp)
+	return out
+}
+
+// MayBeOnStack: can function fn execute while decorator d is being built?
+// (dig skips a decorator that is on the stack, so such a function sees the
+// value without d's decoration -- intended behaviour, see DESIGN §9 R2.)
+func (m *Model) MayBeOnStack(d *MDec, fn int) bool {
+	if fn < 0 {
+		return false
+	}
+	if m.stackMemo == nil {
+		m.stackMemo = map[*MDec]map[int]bool{}
+	}
+	cl, ok := m.stackMemo[d]
+	if !ok {
+		cl = m.permClosure(Consumer{Scope: d.Scope, Self: d, Fn: d.Fn}, d.LP)
+		m.stackMemo[d] = cl
+	}
+	return cl[fn]
+}
+
+// Sources lists the acceptable origins of single key k for a consumer: the
+// nearest decorator; if the consumer can run while that decorator is being
+// built, also what dig delivers when it skips it (next decorator / provider).
+func (m *Model) Sources(c Consumer, k Key) []Source {
+	var out []Source
+	for _, d := range m.DecsOnPath(c.Scope, k, c.Self) {
+		out = append(out, Source{Dec: d})
+		if !m.MayBeOnStack(d, c.Fn) {
+			return out
+		}
+	}
+	return append(out, Source{Ctor: m.NearestProv(c.Scope, k)})
+}
+
 // Feeders: every constructor feeding group key k visible from s.
 func (m *Model) Feeders(s int, k Key) []*MCtor {
 	return m.AllProv(s, k)
@@ -414,12 +485,12 @@ func leafFor(lr []LeafResult, k Key) []int {
 // ConsumerOf returns the consumer view for a function executing in the log.
 func (m *Model) ConsumerOf(fn int, invokeScope int) (Consumer, []LeafParam, bool) {
 	if c, ok := m.ByFn[fn]; ok {
-		return Consumer{Scope: c.Origin}, c.LP, true
+		return Consumer{Scope: c.Origin, Fn: fn}, c.LP, true
 	}
 	if d, ok := m.DByFn[fn]; ok {
-		return Consumer{Scope: d.Scope, Self: d}, d.LP, true
+		return Consumer{Scope: d.Scope, Self: d, Fn: fn}, d.LP, true
 	}
-	return Consumer{Scope: invokeScope}, nil, false
+	return Consumer{Scope: invokeScope, Fn: -1}, nil, false
 }
 
 // ---------------------------------------------------------------- availability / closure
@@ -525,7 +596,7 @@ func (a *availState) ctorAvail(n *MCtor) tri {
 		return unknown
 	}
 	a.onC[n] = true
-	v := a.params(Consumer{Scope: n.Origin}, n.LP)
+	v := a.params(Consumer{Scope: n.Origin, Fn: n.Fn}, n.LP)
 	delete(a.onC, n)
 	a.ctor[n] = v
 	return v
@@ -543,7 +614,7 @@ func (a *availState) decAvail(d *MDec) tri {
 		return unknown
 	}
 	a.onD[d] = true
-	v := a.params(Consumer{Scope: d.Scope, Self: d}, d.LP)
+	v := a.params(Consumer{Scope: d.Scope, Self: d, Fn: d.Fn}, d.LP)
 	delete(a.onD, d)
 	a.dec[d] = v
 	return v
@@ -575,7 +646,7 @@ func (m *Model) ClosureOf(c Consumer, lp []LeafParam) *Closure {
 			return
 		}
 		cl.Fns[n.Fn] = true
-		params(Consumer{Scope: n.Origin}, n.LP)
+		params(Consumer{Scope: n.Origin, Fn: n.Fn}, n.LP)
 	}
 	dec = func(d *MDec) {
 		if seenD[d] {
@@ -587,24 +658,34 @@ func (m *Model) ClosureOf(c Consumer, lp []LeafParam) *Closure {
 			return
 		}
 		cl.Fns[d.Fn] = true
-		params(Consumer{Scope: d.Scope, Self: d}, d.LP)
+		params(Consumer{Scope: d.Scope, Self: d, Fn: d.Fn}, d.LP)
 	}
 	params = func(c Consumer, lp []LeafParam) {
 		for _, p := range lp {
+			ds := m.DecsOnPath(c.Scope, p.Key, c.Self)
+			hidden := false // a decorator that cannot be on the stack hides what lies behind it
 			if p.Key.IsGroup() {
-				ds := m.DecsOnPath(c.Scope, p.Key, c.Self)
 				for _, d := range ds {
 					dec(d)
+					if !m.MayBeOnStack(d, c.Fn) {
+						hidden = true
+					}
 				}
-				if len(ds) == 0 && !p.Soft {
+				if !hidden && !p.Soft {
 					for _, f := range m.Feeders(c.Scope, p.Key) {
 						ctor(f)
 					}
 				}
 				continue
 			}
-			if d := m.NearestDec(c.Scope, p.Key, c.Self); d != nil {
+			for _, d := range ds {
 				dec(d)
+				if !m.MayBeOnStack(d, c.Fn) {
+					hidden = true
+					break
+				}
+			}
+			if hidden {
 				continue
 			}
 			if n := m.NearestProv(c.Scope, p.Key); n != nil {
@@ -672,7 +753,7 @@ func (m *Model) RuntimeCycle(c Consumer, lp []LeafParam) []*MCtor {
 		}
 		on[n] = true
 		stack = append(stack, n)
-		r := params(Consumer{Scope: n.Origin}, n.LP)
+		r := params(Consumer{Scope: n.Origin, Fn: n.Fn}, n.LP)
 		stack = stack[:len(stack)-1]
 		delete(on, n)
 		done[n] = true
